@@ -152,7 +152,7 @@ class Driver:
         chunks = [requests[i::shards] for i in range(shards)]
         procs = []
         for ch in chunks:
-            p = subprocess.Popen([self.path], stdin=subprocess.PIPE, stdout=subprocess.PIPE, text=True)
+            p = subprocess.Popen([self.path], stdin=subprocess.PIPE, stdout=subprocess.PIPE, stderr=subprocess.DEVNULL, text=True)
             procs.append(p)
         # feed in threads to avoid pipe deadlocks
         import threading
